@@ -412,10 +412,101 @@ def _m26(P):
 }''')
 
 
-# Delay-only mutants. s1 DELAYS the removal within the slack the stream has to grant on a loaded machine
-# (must-be-gone = expired for 10 intervals + 500 ms, re-checked after another 10 intervals + 400 ms;
-# interval-ignored = median latency above 3 intervals + 200 ms): it is expected to be missed and is not part of
-# the default set.
+# ---- the expiry goroutine as a WRITER (Property C04: lost-update / ack-lost / ack-not-logged / log-order) ----
+
+@mutant('c1', 'the expiry pass computes on a catalog snapshot taken BEFORE it holds the write token and publishes it')
+def _c1(P):
+    P('engine.go', """		// get transaction
+		txn, err := e.Begin(nil, true)
+		if err != nil {
+			if reporter != nil {
+				reporter(err)
+			}
+			continue
+		}
+""", """		// get transaction
+		stale := e.Catalog()
+		txn, err := e.Begin(nil, true)
+		if err != nil {
+			if reporter != nil {
+				reporter(err)
+			}
+			continue
+		}
+		txn.catalog = stale
+""")
+
+
+@mutant('c2', 'the expiry pass does not take the write token: unlocked transaction, result published directly')
+def _c2(P):
+    P('engine.go', """		// get transaction
+		txn, err := e.Begin(nil, true)
+		if err != nil {
+			if reporter != nil {
+				reporter(err)
+			}
+			continue
+		}
+""", """		// get transaction
+		txn, err := e.Begin(nil, false)
+		if err != nil {
+			if reporter != nil {
+				reporter(err)
+			}
+			continue
+		}
+		if err = txn.Expire(); err == nil && txn.Dirty() {
+			e.mutex.Lock()
+			if err = e.store.Store(txn.Catalog()); err == nil {
+				e.catalog = txn.Catalog()
+			}
+			e.mutex.Unlock()
+		}
+		continue
+""")
+
+
+@mutant('c3', 'Commit releases the write token before the catalog is stored and published')
+def _c3(P):
+    P('engine.go', """	// ensure token is released
+	defer e.token.Release()
+
+	// unset transaction
+	e.txn = nil
+""", """	// unset transaction
+	e.txn = nil
+	e.token.Release()
+	e.mutex.Unlock()
+	time.Sleep(2 * time.Millisecond)
+	e.mutex.Lock()
+""")
+
+
+@mutant('c4', 'update events are logged one position too early (swapped with the previous event)')
+def _c4(P):
+    P('transaction.go', """	// insert event
+	_, err := oplog.Insert(bsonkit.MustConvert(event))
+	if err != nil {
+		return err
+	}
+""", """	// insert event
+	_, err := oplog.Insert(bsonkit.MustConvert(event))
+	if err != nil {
+		return err
+	}
+	if l := oplog.Documents.List; op == "update" && len(l) >= 2 {
+		n := len(l)
+		l[n-1], l[n-2] = l[n-2], l[n-1]
+		oplog.Documents.Index[l[n-1]] = n - 1
+		oplog.Documents.Index[l[n-2]] = n - 2
+	}
+""")
+
+
+# Delay-only mutants: they DELAY the removal within the slack the stream has to grant on a loaded machine
+# (must-be-gone = expired for 10 intervals + 500 ms, re-checked after another 10 intervals + 400 ms); a tighter
+# latency monitor produced a false positive under load and is a distribution tag only (median-latency:*). They
+# are expected to be missed and are not part of the default set.
 SLOW = {}
 
 
@@ -444,7 +535,7 @@ def _s1(P):
 """)
 
 
-@mutant('s2', 'ExpireInterval below 500 ms is clamped to 500 ms (caught only by interval-ignored, in roughly one of ten cases)')
+@slow('s2', 'ExpireInterval below 500 ms is clamped to 500 ms')
 def _s2(P):
     P('engine.go', """	ticker := time.NewTicker(interval)""", """	if interval < 500*time.Millisecond {
 		interval = 500 * time.Millisecond
@@ -469,8 +560,11 @@ def run(name, n, seed):
         r = json.load(open(out))
         c = collections.Counter()
         for k, v in r["distribution"].items():
-            if k.startswith("VIOLATION:"):
+            if k.startswith("VIOLATION:") and not k.startswith("VIOLATION/"):
                 c[k[10:]] += v
+        c04 = sorted(k.split("/", 2)[2] for k in r["distribution"] if k.startswith("VIOLATION/C04/"))
+        if c04:
+            c["C04 by mode"] = c04
         verdict = "CAUGHT" if r["n_violations"] else "MISSED"
         print("%-5s %-6s cases=%d violations=%d %s  -- %s" % (name, verdict, r["evaluations"], r["n_violations"], dict(c), what), flush=True)
         return r["n_violations"] > 0
